@@ -76,6 +76,25 @@ Qed.
 
 Section Rel.
 Variable D : option name.      (* the name of the dead hidden fields that are ignored *)
+Variable M : option str.       (* the message of the demand markers whose firing ends the comparison *)
+
+(* a demand marker  [e][std.trace(mk, 0)] : forcing it emits mk before e is evaluated *)
+Definition markerb (e : expr) : bool :=
+  match M with
+  | None => false
+  | Some mk =>
+      match e with
+      | EIndex (EArr [_]) (ETrace (EStr s) (ENum Z0)) => name_eqb s mk
+      | _ => false
+      end
+  end.
+
+(* the left run has emitted the marker message, or ran out of fuel: nothing is claimed *)
+Definition esc {A} (m : res A) : Prop :=
+  match M with
+  | Some mk => In mk (fst m) \/ snd m = OutOfFuel
+  | None => False
+  end.
 
 Definition is_dead (f : field) : bool :=
   match D with
@@ -113,9 +132,10 @@ Fixpoint trel (k : nat) (t1 t2 : thunk) {struct k} : Prop :=
   match k with
   | O => True
   | S k' =>
-      esim (snd t1) (snd t2) /\ okfld (snd t1) = true /\ okfld (snd t2) = true /\
-      erel (trel k') (fun x => fvb x (snd t1) = true /\ fvb x (snd t2) = true)
-           (selfb (snd t1) = true) (fst t1) (fst t2)
+      markerb (snd t1) = true \/
+      (esim (snd t1) (snd t2) /\ okfld (snd t1) = true /\ okfld (snd t2) = true /\
+       erel (trel k') (fun x => fvb x (snd t1) = true /\ fvb x (snd t2) = true)
+            (selfb (snd t1) = true) (fst t1) (fst t2))
   end.
 
 Definition trelw (t1 t2 : thunk) : Prop := forall k, trel k t1 t2.
@@ -133,39 +153,65 @@ Definition vrel (R : thunk -> thunk -> Prop) (v1 v2 : value) : Prop :=
   end.
 
 Definition resrel {A} (P : A -> A -> Prop) (m1 m2 : res A) : Prop :=
-  fst m1 = fst m2 /\
-  match snd m1, snd m2 with
-  | Ok a, Ok b => P a b
-  | Err a, Err b => a = b
-  | Panic a, Panic b => a = b
-  | OutOfFuel, OutOfFuel => True
-  | _, _ => False
-  end.
+  esc m1 \/
+  (fst m1 = fst m2 /\
+   match snd m1, snd m2 with
+   | Ok a, Ok b => P a b
+   | Err a, Err b => a = b
+   | Panic a, Panic b => a = b
+   | OutOfFuel, OutOfFuel => True
+   | _, _ => False
+   end).
 
 (* ------------------------------------------------------------------ generic facts *)
 
 Lemma resrel_ret : forall A (P : A -> A -> Prop) a b, P a b -> resrel P (ret a) (ret b).
-Proof. intros. split; simpl; auto. Qed.
+Proof. intros. right. split; simpl; auto. Qed.
 
 Lemma resrel_fail : forall A (P : A -> A -> Prop) e, resrel P (fail e) (fail e).
-Proof. intros. split; simpl; auto. Qed.
+Proof. intros. right. split; simpl; auto. Qed.
+
+Lemma resrel_same_stop : forall A (P : A -> A -> Prop) t (o : outcome A errk),
+  (match o with Ok _ => False | _ => True end) -> resrel P (t, o) (t, o).
+Proof. intros A P t o H. right. split; simpl; auto. destruct o; simpl; auto. contradiction. Qed.
+
+Lemma esc_bind : forall A B (m : res A) (k : A -> res B), esc m -> esc (rbind m k).
+Proof.
+  intros A B [t o] k H. unfold esc in *. destruct M as [mk|]; [|exact H]. simpl in *.
+  destruct o as [a| | |]; cbn [rbind fst snd] in *;
+    [|destruct H as [H|H]; [left; exact H|discriminate]
+     |destruct H as [H|H]; [left; exact H|discriminate]
+     |destruct H as [H|H]; [left; exact H|right; reflexivity]].
+  destruct (k a) as [t2 o2]. cbn [fst snd]. destruct H as [H|H]; [left; apply in_or_app; auto|discriminate].
+Qed.
+
+Lemma esc_bind_k : forall A B t (a : A) (k : A -> res B), esc (k a) -> esc (rbind (t, Ok a) k).
+Proof.
+  intros A B t a k H. unfold esc in *. destruct M as [mk|]; [|exact H]. simpl.
+  destruct (k a) as [t2 o2]. simpl in *. destruct H as [H|H]; [left; apply in_or_app; auto|right; exact H].
+Qed.
 
 Lemma resrel_bind : forall A B (P : A -> A -> Prop) (Q : B -> B -> Prop) m1 m2 k1 k2,
   resrel P m1 m2 -> (forall a b, P a b -> resrel Q (k1 a) (k2 b)) ->
   resrel Q (rbind m1 k1) (rbind m2 k2).
 Proof.
-  intros A B P Q [t1 o1] [t2 o2] k1 k2 [Ht Ho] Hk. simpl in *. subst t2.
+  intros A B P Q [t1 o1] [t2 o2] k1 k2 [He|[Ht Ho]] Hk; [left; apply esc_bind; exact He|].
+  simpl in *. subst t2.
   destruct o1 as [a| | |], o2 as [b| | |]; simpl in *; try contradiction;
-    try (subst; split; simpl; auto; fail).
-  specialize (Hk _ _ Ho). destruct (k1 a) as [u1 p1], (k2 b) as [u2 p2]. destruct Hk as [Hu Hp].
-  simpl in *. subst. split; simpl; auto.
+    try (subst; right; split; simpl; auto; fail).
+  specialize (Hk _ _ Ho). destruct Hk as [He|Hk]; [left; apply esc_bind_k; exact He|].
+  destruct (k1 a) as [u1 p1], (k2 b) as [u2 p2]. destruct Hk as [Hu Hp].
+  simpl in *. subst. right. split; simpl; auto.
 Qed.
 
-Lemma resrel_eq : forall A (m1 m2 : res A), resrel eq m1 m2 -> m1 = m2.
+Lemma resrel_eq : forall A (m1 m2 : res A), resrel eq m1 m2 -> esc m1 \/ m1 = m2.
 Proof.
-  intros A [t1 o1] [t2 o2] [Ht Ho]. simpl in *. subst.
+  intros A [t1 o1] [t2 o2] [He|[Ht Ho]]; [left; exact He|right]. simpl in *. subst.
   destruct o1, o2; simpl in *; try contradiction; subst; auto.
 Qed.
+
+Lemma resrel_refl_eq : forall A (m : res A), resrel eq m m.
+Proof. intros A [t o]. right. split; simpl; auto. destruct o; auto. Qed.
 
 Lemma opt_rel_all : forall A (R : nat -> A -> A -> Prop) a b,
   (forall k, opt_rel (R k) a b) -> opt_rel (fun x y => forall k, R k x y) a b.
@@ -174,16 +220,22 @@ Proof.
 Qed.
 
 Lemma trelw_inv : forall r1 e1 r2 e2, trelw (r1, e1) (r2, e2) ->
-  esim e1 e2 /\ okfld e1 = true /\ okfld e2 = true /\
-  erel trelw (fun x => fvb x e1 = true /\ fvb x e2 = true) (selfb e1 = true) r1 r2.
+  markerb e1 = true \/
+  (esim e1 e2 /\ okfld e1 = true /\ okfld e2 = true /\
+   erel trelw (fun x => fvb x e1 = true /\ fvb x e2 = true) (selfb e1 = true) r1 r2).
 Proof.
-  intros r1 e1 r2 e2 H. pose proof (H 1) as H1. simpl in H1. destruct H1 as (Es & O1 & O2 & _).
+  intros r1 e1 r2 e2 H. destruct (markerb e1) eqn:Mk; [left; reflexivity|right].
+  assert (H' : forall k, esim e1 e2 /\ okfld e1 = true /\ okfld e2 = true /\
+       erel (trel k) (fun x => fvb x e1 = true /\ fvb x e2 = true) (selfb e1 = true) r1 r2).
+  { intros k. pose proof (H (S k)) as Hk. simpl in Hk. destruct Hk as [Hk|Hk]; [congruence|exact Hk]. }
+  clear H. rename H' into H.
+  pose proof (H 1) as H1. destruct H1 as (Es & O1 & O2 & _).
   repeat split; auto.
   - intros x Hx. apply (opt_rel_all _ (fun k => trel k)). intros k.
-    pose proof (H (S k)) as Hk. simpl in Hk. destruct Hk as (_ & _ & _ & [L _]). auto.
+    pose proof (H k) as Hk. destruct Hk as (_ & _ & _ & [L _]). auto.
   - intros Hs.
     assert (Hk : forall k, opt_rel (orel (trel k)) (self_of r1) (self_of r2)).
-    { intros k. pose proof (H (S k)) as Hk. simpl in Hk. destruct Hk as (_ & _ & _ & [_ S']). auto. }
+    { intros k. pose proof (H k) as Hk. destruct Hk as (_ & _ & _ & [_ S']). auto. }
     destruct (self_of r1) as [o1|], (self_of r2) as [o2|]; simpl in *; auto; try exact (Hk 0).
     split; [exact (proj1 (Hk 0))|]. intros f Hf k. exact (proj2 (Hk k) f Hf).
 Qed.
@@ -210,12 +262,12 @@ Proof. intros R S S' sf sf' r1 r2 [L Sf] HS Hs. split; auto. Qed.
 
 (* same code: a sub-expression in the same scope *)
 Lemma trelw_sub : forall r1 r2 e e',
-  trelw (r1, e) (r2, e) ->
+  erel trelw (fun x => fvb x e = true /\ fvb x e = true) (selfb e = true) r1 r2 ->
   (forall x, fvb x e' = true -> fvb x e = true) -> (selfb e' = true -> selfb e = true) ->
   okfld e' = true ->
   trelw (r1, e') (r2, e').
 Proof.
-  intros r1 r2 e e' H Hfv Hs Ho. apply trelw_inv in H. destruct H as (_ & _ & _ & E).
+  intros r1 r2 e e' E Hfv Hs Ho.
   apply trelw_intro; auto; [left; reflexivity|].
   intros k. apply erel_trelw_level. eapply erel_weaken; [exact E| |exact Hs].
   intros x [Hx _]. auto.
@@ -295,11 +347,11 @@ Lemma trel_rec : forall bs r1 r2 (S : name -> Prop) (sf : Prop),
     trel k (RRec bs r1, e') (RRec bs r2, e').
 Proof.
   intros bs r1 r2 S sf H Hbs. induction k as [|k IH]; intros e' Ho Hfv Hs; simpl; auto.
-  split; [left; reflexivity|]. split; [exact Ho|]. split; [exact Ho|].
+  right. split; [left; reflexivity|]. split; [exact Ho|]. split; [exact Ho|].
   destruct (H k) as [L Sf]. split.
   - intros x [Hx _]. simpl. destruct (assoc x bs) as [ex|] eqn:A.
     + simpl. destruct (Hbs x ex (assoc_In _ _ _ _ A)) as (O & F & Sx). apply IH; auto.
-    + destruct (Hfv x Hx) as [M|Sx]; [rewrite (assoc_None_mem _ _ _ A) in M; discriminate|]. auto.
+    + destruct (Hfv x Hx) as [Hm|Sx]; [rewrite (assoc_None_mem _ _ _ A) in Hm; discriminate|]. auto.
   - intros Hself. simpl. auto.
 Qed.
 
@@ -312,7 +364,7 @@ Lemma trel_obj : forall fs1 fs2 r1 r2,
     trel k (RObj fs1 r1, snd (snd f)) (RObj fs2 r2, snd (snd f)).
 Proof.
   intros fs1 fs2 r1 r2 Lv H Ho. induction k as [|k IH]; intros f Hf; simpl; auto.
-  split; [left; reflexivity|]. split; [auto|]. split; [auto|]. split.
+  right. split; [left; reflexivity|]. split; [auto|]. split; [auto|]. split.
   - intros x [Hx _]. simpl. apply H.
     + simpl. apply existsb_exists. exists f. split; [apply live_In; exact Hf|exact Hx].
     + simpl. apply existsb_exists. exists f. split; [apply live_In; rewrite <- Lv; exact Hf|exact Hx].
@@ -362,7 +414,7 @@ Qed.
 Lemma trel_refl : forall k r e, env_ok r -> okfld e = true -> trel k (r, e) (r, e).
 Proof.
   induction k as [|k IH]; intros r e Hr He; simpl; auto.
-  split; [left; reflexivity|]. split; [exact He|]. split; [exact He|]. split.
+  right. split; [left; reflexivity|]. split; [exact He|]. split; [exact He|]. split.
   - intros x _. destruct (lookup x r) as [[tr te]|] eqn:L; simpl; auto.
     destruct (lookup_ok _ _ _ _ Hr L). auto.
   - intros _. destruct (self_of r) as [[fs r']|] eqn:S; simpl; auto.
@@ -485,7 +537,7 @@ Qed.
 Lemma fvb_func_default : forall y ps body x ex,
   In (x, Some ex) ps -> fvb y ex = true -> mem y (map fst ps) = false -> fvb y (EFunc ps body) = true.
 Proof.
-  intros y ps body x ex Hin Hy M. simpl. rewrite M. apply orb_true_iff. left.
+  intros y ps body x ex Hin Hy Hm. simpl. rewrite Hm. apply orb_true_iff. left.
   apply existsb_exists. exists (x, Some ex). split; auto.
 Qed.
 
@@ -500,7 +552,7 @@ Lemma bind_args_rel : forall ps body args cr1 cr2 fr1 fr2,
 Proof.
   intros ps body args cr1 cr2 fr1 fr2 Hf Ha. unfold bind_args.
   match goal with |- context [Nat.ltb ?a ?b] => destruct (Nat.ltb a b) end; [reflexivity|].
-  apply trelw_inv in Hf. destruct Hf as (_ & Of & _ & Ef).
+  apply trelw_inv in Hf. destruct Hf as [Mk|(_ & Of & _ & Ef)]; [unfold markerb in Mk; destruct M; discriminate|].
   assert (H0 : forall k, erel (trel k) (fun y => fvb y (EFunc ps body) = true) (selfb (EFunc ps body) = true) fr1 fr2).
   { intros k. apply erel_trelw_level. eapply erel_weaken; [exact Ef| |auto]. intros x Hx. simpl. split; exact Hx. }
   destruct (bind_pos_rel ps args cr1 cr2 fr1 fr2 _ _ H0 Ha) as [E1 E2].
@@ -515,7 +567,7 @@ Proof.
             forall y, fvb y e' = true ->
             mem y (map fst ds) = true \/
             (fvb y (EFunc ps body) = true \/ (mem y (map fst ps) = true /\ mem y (map fst rest) = false))).
-  { intros e' He' y Hy. destruct (mem y (map fst ps)) eqn:M.
+  { intros e' He' y Hy. destruct (mem y (map fst ps)) eqn:Hm.
     - destruct (mem y (map fst rest)) eqn:M2; [left; rewrite Nm; exact M2|right; right; auto].
     - right. left. apply He'; auto. }
   intros k. eapply trel_rec with (sf := selfb (EFunc ps body) = true); [exact E2| | exact Ob | |].
@@ -523,23 +575,47 @@ Proof.
     + clear - Of Hps. unfold okfld in *. destruct D as [d|]; auto. simpl in Of.
       apply andb_true_iff in Of. destruct Of as [Of _]. rewrite forallb_forall in Of.
       exact (Of _ Hps).
-    + apply Hscope. intros y Hy M. eapply fvb_func_default; eauto.
+    + apply Hscope. intros y Hy Hm. eapply fvb_func_default; eauto.
     + intros Hs. simpl. apply orb_true_iff. left. apply existsb_exists. exists (x, Some ex). auto.
-  - apply Hscope. intros y Hy M. simpl. rewrite M. apply orb_true_iff. right. exact Hy.
+  - apply Hscope. intros y Hy Hm. simpl. rewrite Hm. apply orb_true_iff. right. exact Hy.
   - intros Hs. simpl. apply orb_true_iff. right. exact Hs.
 Qed.
 
 (* ------------------------------------------------------------------ the fundamental lemma *)
 
+Lemma rbind_ret_l_pre : forall A B (a : A) (k : A -> res B), rbind (ret a) k = k a.
+Proof. intros. unfold rbind, ret. destruct (k a). reflexivity. Qed.
+
 Lemma existsb_in : forall A (f : A -> bool) l a, In a l -> f a = true -> existsb f l = true.
 Proof. intros. apply existsb_exists. eauto. Qed.
+
+(* forcing a demand marker emits its message (or runs out of fuel) *)
+Lemma marker_esc : forall e, markerb e = true -> forall n r, @esc value (eval n r e).
+Proof.
+  unfold markerb, esc. destruct M as [mk|]; [|discriminate].
+  intros e H n r.
+  repeat match type of H with context [match ?x with _ => _ end] => destruct x; try discriminate end.
+  apply name_eqb_eq in H. subst.
+  destruct n as [|n1]; [right; reflexivity|]. cbn [eval].
+  destruct n1 as [|n2]; [right; reflexivity|].
+  assert (EA : eval (S n2) r (EArr [e]) = ret (VArr [(r, e)])) by reflexivity.
+  rewrite EA, rbind_ret_l_pre. clear EA.
+  destruct n2 as [|n3].
+  - assert (ET : eval 1 r (ETrace (EStr mk) (ENum 0)) = ([], OutOfFuel)) by reflexivity.
+    rewrite ET. right. reflexivity.
+  - assert (ET : eval (S (S n3)) r (ETrace (EStr mk) (ENum 0)) = ([mk], Ok (VNum 0))) by reflexivity.
+    rewrite ET. clear ET. unfold rbind.
+    change (index_array [(r, e)] (VNum 0)) with (@inr errk thunk (r, e)). cbv iota beta.
+    destruct (eval (S (S n3)) r e) as [t o]. simpl. left. left. reflexivity.
+Qed.
 
 Theorem fundamental : forall n r1 e1 r2 e2,
   trelw (r1, e1) (r2, e2) ->
   resrel (vrel trelw) (eval n r1 e1) (eval n r2 e2).
 Proof.
-  induction n as [|n IH]; intros r1 e1 r2 e2 H; [split; simpl; auto|].
-  pose proof (trelw_inv _ _ _ _ H) as (Es & O1 & O2 & [L Sf]).
+  induction n as [|n IH]; intros r1 e1 r2 e2 H; [right; split; simpl; auto|].
+  destruct (trelw_inv _ _ _ _ H) as [Mk|(Es & O1 & O2 & E)]; [left; apply marker_esc; exact Mk|].
+  pose proof E as [L Sf].
   destruct Es as [<- | (fs1 & fs2 & -> & -> & Lv)].
   2: { cbn [eval]. apply resrel_ret. simpl. split; [exact Lv|]. intros f Hf k. simpl.
        apply trel_obj; auto.
@@ -562,7 +638,7 @@ Proof.
     specialize (L x (conj Hx Hx)).
     destruct (lookup x r1) as [[tr1 te1]|], (lookup x r2) as [[tr2 te2]|]; simpl in L; try contradiction.
     + apply IH. exact L.
-    + split; simpl; auto.
+    + right; split; simpl; auto.
   - (* ELocal *)
     apply IH. intros k.
     apply trel_rec with (S := fun x => fvb x (ELocal bs e1) = true) (sf := selfb (ELocal bs e1) = true).
@@ -570,12 +646,12 @@ Proof.
     + intros x ex Hin. split; [|split].
       * clear - O1 Hin. unfold okfld in *. destruct D as [d|]; auto. simpl in O1.
         apply andb_true_iff in O1. destruct O1 as [O1 _]. rewrite forallb_forall in O1. exact (O1 _ Hin).
-      * intros y Hy. destruct (mem y (map fst bs)) eqn:M; [left; reflexivity|right].
-        simpl. rewrite M. apply orb_true_iff. left. eapply existsb_in; eauto.
+      * intros y Hy. destruct (mem y (map fst bs)) eqn:Hm; [left; reflexivity|right].
+        simpl. rewrite Hm. apply orb_true_iff. left. eapply existsb_in; eauto.
       * intros Hs. simpl. apply orb_true_iff. left. eapply existsb_in; eauto.
     + clear - O1. okf.
-    + intros y Hy. destruct (mem y (map fst bs)) eqn:M; [left; reflexivity|right].
-      simpl. rewrite M. apply orb_true_iff. right. exact Hy.
+    + intros y Hy. destruct (mem y (map fst bs)) eqn:Hm; [left; reflexivity|right].
+      simpl. rewrite Hm. apply orb_true_iff. right. exact Hy.
     + intros Hs. simpl. apply orb_true_iff. right. exact Hs.
   - (* EFunc *) apply resrel_ret. simpl. repeat split; auto.
   - (* ECall *)
@@ -630,7 +706,7 @@ Proof.
     specialize (Sf eq_refl).
     destruct (self_of r1) as [[fsa oa]|], (self_of r2) as [[fsb ob]|]; simpl in Sf; try contradiction.
     + apply resrel_ret. exact Sf.
-    + split; simpl; auto.
+    + right; split; simpl; auto.
   - (* EIf *)
     eapply resrel_bind.
     + apply IH. apply Hsub; [intros x Hx; simpl; rewrite Hx; reflexivity|intros Hs; simpl; rewrite Hs; reflexivity|clear - O1; okf].
@@ -660,16 +736,19 @@ Proof.
     + intros vx1 vx2 Hvx. eapply resrel_bind.
       * apply IH. apply Hsub; [intros x Hx; simpl; rewrite Hx; reflexivity|intros Hs; simpl; rewrite Hs; reflexivity|clear - O1; okf].
       * intros vm1 vm2 Hvm. destruct vm1, vm2; simpl in Hvm; try contradiction; try apply resrel_fail.
-        subst. split; simpl; auto.
+        subst. right; split; simpl; auto.
 Qed.
 
 (* ------------------------------------------------------------------ forcing related values *)
 
-Lemma mapM_rel : forall A B (R : A -> A -> Prop) (f g : A -> res B) l1 l2,
-  Forall2 R l1 l2 -> (forall a b, R a b -> f a = g b) -> mapM f l1 = mapM g l2.
+Lemma mapM_resrel : forall A B (R : A -> A -> Prop) (f g : A -> res B) l1 l2,
+  Forall2 R l1 l2 -> (forall a b, R a b -> resrel eq (f a) (g b)) ->
+  resrel eq (mapM f l1) (mapM g l2).
 Proof.
-  intros A B R f g l1 l2 H Hfg. induction H as [|a b l1 l2 Hab Hl IH]; simpl; auto.
-  rewrite (Hfg a b Hab). rewrite IH. reflexivity.
+  intros A B R f g l1 l2 H Hfg. induction H as [|a b l1 l2 Hab Hl IH]; simpl.
+  - apply resrel_ret. reflexivity.
+  - eapply resrel_bind; [apply Hfg; exact Hab|]. intros x y <-.
+    eapply resrel_bind; [exact IH|]. intros xs ys <-. apply resrel_ret. reflexivity.
 Qed.
 
 Lemma Forall2_diag_In : forall A (P : A -> Prop) (l : list A),
@@ -700,45 +779,69 @@ Proof.
   - apply IH; auto. intros q' Hq'. apply Hl. right. exact Hq'.
 Qed.
 
-Theorem manifest_rel : forall fc n v1 v2, vrel trelw v1 v2 -> manifest fc n v1 = manifest fc n v2.
+Theorem manifest_rel : forall fc n v1 v2, vrel trelw v1 v2 ->
+  resrel eq (manifest fc n v1) (manifest fc n v2).
 Proof.
-  intros fc. induction n as [|n IH]; intros v1 v2 Hv; [reflexivity|].
-  destruct v1 as [|ba|za|sa|tsa|fsa ora|psa bda fra], v2 as [|bb|zb|sb|tsb|fsb orb'|psb bdb frb]; simpl in Hv; try contradiction; subst; cbn [manifest]; auto.
+  intros fc. induction n as [|n IH]; intros v1 v2 Hv; [apply resrel_refl_eq|].
+  destruct v1 as [|ba|za|sa|tsa|fsa ora|psa bda fra], v2 as [|bb|zb|sb|tsb|fsb orb'|psb bdb frb];
+    simpl in Hv; try contradiction; subst; cbn [manifest]; try apply resrel_refl_eq.
   - (* arrays *)
-    f_equal. apply mapM_rel with (R := trelw); [exact Hv|].
-    intros [ra ea] [rb eb] Hab. simpl.
-    pose proof (fundamental fc ra ea rb eb Hab) as F.
-    destruct (eval fc ra ea) as [t1 o1], (eval fc rb eb) as [t2 o2]. destruct F as [Ft Fo]. simpl in *. subst t2.
-    destruct o1, o2; simpl in *; try contradiction; subst; auto.
-    rewrite (IH _ _ Fo). reflexivity.
+    eapply resrel_bind.
+    + apply mapM_resrel with (R := trelw); [exact Hv|].
+      intros [ra ea] [rb eb] Hab. simpl.
+      eapply resrel_bind; [apply fundamental; exact Hab|]. intros x y Hxy. apply IH. exact Hxy.
+    + intros xs ys <-. apply resrel_ret. reflexivity.
   - (* objects *)
     destruct Hv as [Lv F]. simpl in Lv, F.
-    rewrite <- (visible_live fsa), <- (visible_live fsb), <- Lv. f_equal.
-    apply mapM_rel with (R := fun p q => p = q /\ In p (visible_sorted (live fsa))).
-    + apply Forall2_diag_In. auto.
-    + intros p q [<- Hp].
-      destruct (visible_sorted_In _ _ Hp) as (fld & Hfld & Efld).
-      pose proof (F fld Hfld) as T. rewrite Efld in T.
-      pose proof (fundamental fc _ _ _ _ T) as X.
-      destruct (eval fc (RObj fsa ora) (snd p)) as [t1 o1], (eval fc (RObj fsb orb') (snd p)) as [t2 o2].
-      destruct X as [Xt Xo]. simpl in *. subst t2.
-      destruct o1, o2; simpl in *; try contradiction; subst; auto.
-      rewrite (IH _ _ Xo). reflexivity.
+    rewrite <- (visible_live fsa), <- (visible_live fsb), <- Lv.
+    eapply resrel_bind.
+    + apply mapM_resrel with (R := fun p q => p = q /\ In p (visible_sorted (live fsa))).
+      * apply Forall2_diag_In. auto.
+      * intros p q [<- Hp].
+        destruct (visible_sorted_In _ _ Hp) as (fld & Hfld & Efld).
+        pose proof (F fld Hfld) as T. rewrite Efld in T.
+        eapply resrel_bind; [apply fundamental; exact T|]. intros x y Hxy.
+        eapply resrel_bind; [apply IH; exact Hxy|]. intros j j' <-. apply resrel_ret. reflexivity.
+    + intros xs ys <-. apply resrel_ret. reflexivity.
 Qed.
 
-(* related closures give the same observable outcome of a whole run: the same trace
-   output, and the same JSON tree / error / panic / fuel exhaustion *)
-Theorem run_rel : forall fe fc fm r1 e1 r2 e2,
-  trelw (r1, e1) (r2, e2) -> run_in fe fc fm r1 e1 = run_in fe fc fm r2 e2.
+(* related computations of a value give the same observable outcome of the whole run
+   (trace output, JSON tree / error / panic / fuel exhaustion) — unless the left run
+   emitted the marker message or ran out of fuel *)
+Lemma run_of_rel : forall fc fm (m1 m2 : res value),
+  resrel (vrel trelw) m1 m2 ->
+  resrel eq (rdo v <- m1; rdo j <- manifest fc fm v; finish j)
+            (rdo v <- m2; rdo j <- manifest fc fm v; finish j).
 Proof.
-  intros fe fc fm r1 e1 r2 e2 H. unfold run_in.
-  pose proof (fundamental fe r1 e1 r2 e2 H) as F.
-  destruct (eval fe r1 e1) as [t1 o1], (eval fe r2 e2) as [t2 o2]. destruct F as [Ft Fo]. simpl in *. subst t2.
-  destruct o1, o2; simpl in *; try contradiction; subst; auto.
-  rewrite (manifest_rel fc fm _ _ Fo). reflexivity.
+  intros fc fm m1 m2 H. eapply resrel_bind; [exact H|]. intros v1 v2 Hv.
+  eapply resrel_bind; [apply manifest_rel; exact Hv|]. intros j j' <-. apply resrel_refl_eq.
 Qed.
+
+Theorem run_rel : forall fe fc fm r1 e1 r2 e2,
+  trelw (r1, e1) (r2, e2) -> resrel eq (run_in fe fc fm r1 e1) (run_in fe fc fm r2 e2).
+Proof. intros. unfold run_in. apply run_of_rel. apply fundamental. assumption. Qed.
 
 End Rel.
+
+Lemma esc_none : forall A (m : res A), esc None m -> False.
+Proof. intros A m H. exact H. Qed.
+
+Theorem run_rel_eq : forall D fe fc fm r1 e1 r2 e2,
+  trelw D None (r1, e1) (r2, e2) -> run_in fe fc fm r1 e1 = run_in fe fc fm r2 e2.
+Proof.
+  intros D fe fc fm r1 e1 r2 e2 H.
+  destruct (resrel_eq None _ _ _ (run_rel D None fe fc fm r1 e1 r2 e2 H)) as [[]|E]. exact E.
+Qed.
+
+Lemma run_of_rel_eq : forall D fc fm (m1 m2 : res value),
+  @resrel None _ (vrel D (trelw D None)) m1 m2 ->
+  (rdo v <- m1; rdo j <- manifest fc fm v; finish j) = (rdo v <- m2; rdo j <- manifest fc fm v; finish j).
+Proof.
+  intros D fc fm m1 m2 H.
+  destruct (resrel_eq None _ _ _ (run_of_rel D None fc fm m1 m2 H)) as [[]|E]. exact E.
+Qed.
+
+
 
 (* ================================================================== coincidence / weakening *)
 
@@ -748,12 +851,12 @@ Definition agree_on (e : expr) (r1 r2 : env) : Prop :=
   (forall x, fvb x e = true -> lookup x r1 = lookup x r2) /\
   (selfb e = true -> self_of r1 = self_of r2).
 
-Lemma orel_refl_none : forall k fs r, orel None (trel None k) (fs, r) (fs, r).
+Lemma orel_refl_none : forall k fs r, orel None (trel None None k) (fs, r) (fs, r).
 Proof.
   intros k fs r. split; [reflexivity|]. intros f Hf. simpl. apply trel_refl; [exact I|reflexivity].
 Qed.
 
-Lemma trelw_agree : forall r1 r2 e, agree_on e r1 r2 -> trelw None (r1, e) (r2, e).
+Lemma trelw_agree : forall r1 r2 e, agree_on e r1 r2 -> trelw None None (r1, e) (r2, e).
 Proof.
   intros r1 r2 e [L S]. apply trelw_intro; [left; reflexivity|reflexivity|reflexivity|].
   intros k. split.
@@ -763,12 +866,12 @@ Proof.
 Qed.
 
 Theorem coincidence_eval : forall n r1 r2 e, agree_on e r1 r2 ->
-  resrel (vrel None (trelw None)) (eval n r1 e) (eval n r2 e).
+  @resrel None _ (vrel None (trelw None None)) (eval n r1 e) (eval n r2 e).
 Proof. intros. apply fundamental. apply trelw_agree. assumption. Qed.
 
 Theorem coincidence : forall fe fc fm r1 r2 e, agree_on e r1 r2 ->
   run_in fe fc fm r1 e = run_in fe fc fm r2 e.
-Proof. intros. apply (run_rel None). apply trelw_agree. assumption. Qed.
+Proof. intros. apply (run_rel_eq None). apply trelw_agree. assumption. Qed.
 
 Lemma agree_arg : forall e x tr te r, fvb x e = false -> agree_on e (RArg x tr te r) r.
 Proof.
@@ -791,15 +894,6 @@ Proof. intros e fs r H. split; [reflexivity|]. intros Hs. congruence. Qed.
 
 Lemma rbind_ret_l : forall A B (a : A) (k : A -> res B), rbind (ret a) k = k a.
 Proof. intros. unfold rbind, ret. destruct (k a). reflexivity. Qed.
-
-Lemma run_of_rel : forall D fc fm (m1 m2 : res value),
-  resrel (vrel D (trelw D)) m1 m2 ->
-  (rdo v <- m1; rdo j <- manifest fc fm v; finish j) = (rdo v <- m2; rdo j <- manifest fc fm v; finish j).
-Proof.
-  intros D fc fm [t1 o1] [t2 o2] [Ft Fo]. simpl in *. subst t2.
-  destruct o1, o2; simpl in *; try contradiction; subst; auto.
-  rewrite (manifest_rel D fc fm _ _ Fo). reflexivity.
-Qed.
 
 (* ================================================================== the rewrite laws *)
 
@@ -869,10 +963,10 @@ Qed.
 Lemma trel_rec_dead : forall bs1 bs2 x e0 r,
   (forall y ey, In (y, ey) (bs1 ++ bs2) -> fvb x ey = false) ->
   forall k e', fvb x e' = false ->
-    trel None k (RRec (bs1 ++ (x, e0) :: bs2) r, e') (RRec (bs1 ++ bs2) r, e').
+    trel None None k (RRec (bs1 ++ (x, e0) :: bs2) r, e') (RRec (bs1 ++ bs2) r, e').
 Proof.
   intros bs1 bs2 x e0 r Hbs. induction k as [|k IH]; intros e' He'; simpl; auto.
-  split; [left; reflexivity|]. split; [reflexivity|]. split; [reflexivity|]. split.
+  right. split; [left; reflexivity|]. split; [reflexivity|]. split; [reflexivity|]. split.
   - intros y [Hy _]. simpl.
     assert (Ne : name_eqb y x = false).
     { destruct (name_eqb y x) eqn:E; auto. apply name_eqb_eq in E. subst. congruence. }
@@ -890,7 +984,7 @@ Proof.
   intros fe fc fm r bs1 bs2 x e0 body Hbs Hb. destruct fe as [|fe]; [reflexivity|].
   unfold run_in. cbn [eval].
   change (run_in fe fc fm (RRec (bs1 ++ (x, e0) :: bs2) r) body = run_in fe fc fm (RRec (bs1 ++ bs2) r) body).
-  apply (run_rel None). intros k. apply trel_rec_dead; assumption.
+  apply (run_rel_eq None). intros k. apply trel_rec_dead; assumption.
 Qed.
 
 (* dead-code irrelevance: what a dead binding is bound to cannot matter *)
@@ -937,8 +1031,8 @@ Theorem rw_dead_param : forall fe fc fm r ps p e0 body args,
 Proof.
   intros fe fc fm r ps p e0 body args Hlen Hb Hd.
   destruct fe as [|m]; [reflexivity|].
-  unfold run_in. apply (run_of_rel None). cbn [eval].
-  destruct m as [|n]; [split; simpl; auto|].
+  unfold run_in. apply (run_of_rel_eq None). cbn [eval].
+  destruct m as [|n]; [right; split; simpl; auto|].
   rewrite !eval_func, !rbind_ret_l. unfold bind_args.
   assert (L1 : Nat.ltb (@length param (ps ++ [(p, Some e0)])) (length args) = false)
     by (apply Nat.ltb_ge; unfold param; rewrite app_length; simpl; lia).
@@ -949,7 +1043,7 @@ Proof.
   destruct (bind_pos ps args r r) as [r1 rest]. simpl fst. simpl snd. simpl in Hincl.
   rewrite defaults_of_app.
   destruct (defaults_of rest) as [err|ds] eqn:Dd; [apply resrel_fail|].
-  apply fundamental. intros k.
+  apply (fundamental None None). intros k.
   assert (Hds' : forall y ey, In (y, ey) (ds ++ []) -> fvb p ey = false).
   { intros y ey Hin. rewrite app_nil_r in Hin.
     destruct (defaults_of_spec _ _ Dd) as [_ Hds]. eapply Hd. apply Hincl. apply Hds. exact Hin. }
@@ -966,7 +1060,7 @@ Proof.
 Qed.
 
 Lemma orel_refl_some : forall d k fs r,
-  env_nofld d (RObj fs r) = true -> orel (Some d) (trel (Some d) k) (fs, r) (fs, r).
+  env_nofld d (RObj fs r) = true -> orel (Some d) (trel (Some d) None k) (fs, r) (fs, r).
 Proof.
   intros d k fs r H. split; [reflexivity|]. intros f Hf. simpl. apply trel_refl; [exact H|].
   simpl in H. apply andb_true_iff in H. destruct H as [H _]. rewrite forallb_forall in H.
@@ -978,9 +1072,9 @@ Lemma trel_dead_field : forall d fs1 fs2 e0 o r,
   forallb (fun f : field => nofld d (snd (snd f))) (fs1 ++ (d, (true, e0)) :: fs2) = true ->
   forall k,
     (forall e', nofld d e' = true ->
-       trel (Some d) k (RRec [(o, EObj (fs1 ++ (d, (true, e0)) :: fs2))] r, e')
+       trel (Some d) None k (RRec [(o, EObj (fs1 ++ (d, (true, e0)) :: fs2))] r, e')
                        (RRec [(o, EObj (fs1 ++ fs2))] r, e')) /\
-    trel (Some d) k (RRec [(o, EObj (fs1 ++ (d, (true, e0)) :: fs2))] r, EObj (fs1 ++ (d, (true, e0)) :: fs2))
+    trel (Some d) None k (RRec [(o, EObj (fs1 ++ (d, (true, e0)) :: fs2))] r, EObj (fs1 ++ (d, (true, e0)) :: fs2))
                     (RRec [(o, EObj (fs1 ++ fs2))] r, EObj (fs1 ++ fs2)).
 Proof.
   intros d fs1 fs2 e0 o r Hr Hfs.
@@ -989,21 +1083,21 @@ Proof.
     apply andb_true_iff in B. destruct B as [_ B]. rewrite A, B. reflexivity. }
   induction k as [|k [IH1 IH2]]; [split; simpl; auto|].
   assert (HL : forall y,
-    opt_rel (trel (Some d) k)
+    opt_rel (trel (Some d) None k)
       (lookup y (RRec [(o, EObj (fs1 ++ (d, (true, e0)) :: fs2))] r))
       (lookup y (RRec [(o, EObj (fs1 ++ fs2))] r))).
   { intros y. simpl. destruct (name_eqb y o); simpl; [exact IH2|].
     destruct (lookup y r) as [[tr te]|] eqn:L; simpl; auto.
     destruct (lookup_ok (Some d) _ _ _ _ Hr L). apply trel_refl; assumption. }
-  assert (HS : opt_rel (orel (Some d) (trel (Some d) k))
+  assert (HS : opt_rel (orel (Some d) (trel (Some d) None k))
       (self_of (RRec [(o, EObj (fs1 ++ (d, (true, e0)) :: fs2))] r))
       (self_of (RRec [(o, EObj (fs1 ++ fs2))] r))).
   { simpl. destruct (self_of r) as [[fs r']|] eqn:S; simpl; auto.
     destruct (self_ok (Some d) _ _ _ Hr S) as [Ho _]. apply orel_refl_some. exact Ho. }
   split.
-  - intros e' He'. simpl. split; [left; reflexivity|]. split; [exact He'|]. split; [exact He'|].
+  - intros e' He'. simpl. right. split; [left; reflexivity|]. split; [exact He'|]. split; [exact He'|].
     split; [intros y _; apply HL|intros _; exact HS].
-  - simpl. split; [right; eexists; eexists; split; [reflexivity|split; [reflexivity|apply live_dead_field]]|].
+  - simpl. right. split; [right; eexists; eexists; split; [reflexivity|split; [reflexivity|apply live_dead_field]]|].
     split; [exact Hfs|]. split; [exact Hfs2|].
     split; [intros y _; apply HL|intros Hs; discriminate].
 Qed.
@@ -1019,7 +1113,7 @@ Theorem rw_dead_field : forall fe fc fm r d fs1 fs2 e0 o body,
 Proof.
   intros fe fc fm r d fs1 fs2 e0 o body Hr Hfs Hb. destruct fe as [|fe]; [reflexivity|].
   unfold run_in. cbn [eval].
-  apply (run_of_rel (Some d)). apply fundamental. intros k.
+  apply (run_of_rel_eq (Some d)). apply (fundamental (Some d) None). intros k.
   apply (proj1 (trel_dead_field d fs1 fs2 e0 o r Hr Hfs k)). exact Hb.
 Qed.
 
@@ -1033,7 +1127,7 @@ Proof.
   assert (Hfs2 : forallb (fun f : field => nofld d (snd (snd f))) (fs1 ++ fs2) = true).
   { rewrite forallb_app in *. simpl in Hfs. apply andb_true_iff in Hfs. destruct Hfs as [A B].
     apply andb_true_iff in B. destruct B as [_ B]. rewrite A, B. reflexivity. }
-  apply (run_rel (Some d)). apply trelw_intro.
+  apply (run_rel_eq (Some d)). apply trelw_intro.
   - right. eexists. eexists. split; [reflexivity|split; [reflexivity|apply live_dead_field]].
   - exact Hfs.
   - exact Hfs2.
@@ -1055,4 +1149,76 @@ Proof.
     + subst res. exfalso. apply Hres. reflexivity.
     + exists n. rewrite <- H. symmetry. apply rw_local_name. exact Hx.
   - exists (S (S fe)). rewrite <- H. apply rw_local_name. exact Hx.
+Qed.
+
+(* ================================================================== laziness monotonicity
+   (the general "replace any undemanded binding by anything" statement): a binding that
+   may well be free in the body, but is never demanded in this run, is irrelevant.
+   Demand is observed through the marker [e][std.trace(mk, 0)], which emits mk strictly
+   before e is evaluated. *)
+
+Definition marker (mk : str) (e : expr) : expr := EIndex (EArr [e]) (ETrace (EStr mk) (ENum 0)).
+
+Lemma markerb_marker : forall mk e, markerb (Some mk) (marker mk e) = true.
+Proof. intros. unfold markerb, marker. apply name_eqb_refl. Qed.
+
+Lemma orel_refl_marker : forall mk k fs r, orel None (trel None (Some mk) k) (fs, r) (fs, r).
+Proof.
+  intros mk k fs r. split; [reflexivity|]. intros f Hf. simpl. apply trel_refl; [exact I|reflexivity].
+Qed.
+
+Lemma trel_undemanded_local : forall mk x e1 e2 r k e',
+  trel None (Some mk) k (RRec [(x, marker mk e1)] r, e') (RRec [(x, e2)] r, e').
+Proof.
+  intros mk x e1 e2 r k e'. destruct k as [|k]; simpl; auto.
+  right. split; [left; reflexivity|]. split; [reflexivity|]. split; [reflexivity|]. split.
+  - intros y _. simpl. destruct (name_eqb y x); simpl.
+    + destruct k as [|k]; simpl; auto. left. exact (markerb_marker mk e1).
+    + destruct (lookup y r) as [[tr te]|]; simpl; auto. apply trel_refl; [exact I|reflexivity].
+  - intros _. simpl. destruct (self_of r) as [[fs r']|]; simpl; auto. apply orel_refl_marker.
+Qed.
+
+Theorem laziness_monotone : forall fe fc fm r x e1 e2 body mk,
+  let res := run_in fe fc fm r (ELocal [(x, marker mk e1)] body) in
+  ~ In mk (fst res) -> snd res <> OutOfFuel ->
+  run_in fe fc fm r (ELocal [(x, e2)] body) = res.
+Proof.
+  intros fe fc fm r x e1 e2 body mk res Hm Hf. subst res.
+  destruct fe as [|fe]; [exfalso; apply Hf; reflexivity|].
+  change (run_in (S fe) fc fm r (ELocal [(x, marker mk e1)] body))
+    with (run_in fe fc fm (RRec [(x, marker mk e1)] r) body) in *.
+  change (run_in (S fe) fc fm r (ELocal [(x, e2)] body))
+    with (run_in fe fc fm (RRec [(x, e2)] r) body).
+  pose proof (run_rel None (Some mk) fe fc fm (RRec [(x, marker mk e1)] r) body (RRec [(x, e2)] r) body
+                (fun k => trel_undemanded_local mk x e1 e2 r k body)) as R.
+  destruct (resrel_eq (Some mk) _ _ _ R) as [[E|E]|E]; [contradiction|contradiction|symmetry; exact E].
+Qed.
+
+(* the same for a function argument that is never demanded *)
+Lemma trel_undemanded_arg : forall mk x e1 e2 cr fr k e',
+  trel None (Some mk) k (RRec [] (RArg x cr (marker mk e1) fr), e') (RRec [] (RArg x cr e2 fr), e').
+Proof.
+  intros mk x e1 e2 cr fr k e'. destruct k as [|k]; simpl; auto.
+  right. split; [left; reflexivity|]. split; [reflexivity|]. split; [reflexivity|]. split.
+  - intros y _. simpl. destruct (name_eqb y x); simpl.
+    + destruct k as [|k]; simpl; auto. left. exact (markerb_marker mk e1).
+    + destruct (lookup y fr) as [[tr te]|]; simpl; auto. apply trel_refl; [exact I|reflexivity].
+  - intros _. simpl. destruct (self_of fr) as [[fs r']|]; simpl; auto. apply orel_refl_marker.
+Qed.
+
+Theorem laziness_monotone_arg : forall fe fc fm r x e1 e2 body mk,
+  let res := run_in fe fc fm r (ECall (EFunc [(x, None)] body) [marker mk e1]) in
+  ~ In mk (fst res) -> snd res <> OutOfFuel ->
+  run_in fe fc fm r (ECall (EFunc [(x, None)] body) [e2]) = res.
+Proof.
+  intros fe fc fm r x e1 e2 body mk res Hm Hf. subst res.
+  destruct fe as [|[|fe]]; [exfalso; apply Hf; reflexivity|exfalso; apply Hf; reflexivity|].
+  assert (E1 : forall a, run_in (S (S fe)) fc fm r (ECall (EFunc [(x, None)] body) [a]) =
+                         run_in (S fe) fc fm (RRec [] (RArg x r a r)) body).
+  { intros a. unfold run_in. remember (S fe) as m eqn:Em. cbn [eval]. subst m.
+    rewrite eval_func, rbind_ret_l. reflexivity. }
+  rewrite !E1 in *.
+  pose proof (run_rel None (Some mk) (S fe) fc fm _ body _ body
+                (fun k => trel_undemanded_arg mk x e1 e2 r r k body)) as R.
+  destruct (resrel_eq (Some mk) _ _ _ R) as [[E|E]|E]; [contradiction|contradiction|symmetry; exact E].
 Qed.
